@@ -9,6 +9,7 @@ library code) is observed by the correspondence harness on the implementation.
 -/
 import ThriftVerif.Wire.LazyProofs
 import ThriftVerif.Wire.EnvelopeProofs
+import ThriftVerif.Schema.LazyAgree
 
 namespace ThriftVerif.Properties.C03
 open ThriftVerif.Wire
@@ -46,6 +47,19 @@ theorem skip_of_decode (seek : Bool) (t : UInt8) (bs : Bytes) (v : WValue) (rest
   obtain ⟨h1, h2, h3⟩ := dec_canonical h
   subst h1 h2
   exact skip_enc seek v rest _ h3 (size_le_fuelFor v rest)
+
+/-- The same for an UNFORCED random-access decode (`reader.ReadValue`: containers only validated by
+a seeking skip): it ends exactly where any successful seeking `Skip` of that type from the same
+position ends — whatever fuel the model runs either with — and leaves a well-formed position. -/
+theorem lazy_decode_ends_where_skip_ends (f f' : Nat) (t : UInt8) (bs : Bytes) (lv : ThriftVerif.Schema.LVal)
+    (s' s'' : St) (h1 : ThriftVerif.Schema.decL f t (bs, 0) = .ok (lv, s'))
+    (h2 : skip true f' t (bs, 0) = .ok s'') : s'' = s' ∧ WFSt s' :=
+  ⟨ThriftVerif.Schema.decL_skip_agree (wf_zero bs) h1 h2, ThriftVerif.Schema.decL_wf (wf_zero bs) h1⟩
+
+/-- Two successful skips agree whatever fuel the model ran with (the result is a function of the input). -/
+theorem skip_result_fuel_independent (seek : Bool) (f1 f2 : Nat) (t : UInt8) (s a b : St)
+    (h1 : skip seek f1 t s = .ok a) (h2 : skip seek f2 t s = .ok b) : a = b :=
+  skip_agree h1 h2
 
 /-- Read segmentation: `io.ReadFull` returns the same bytes and leaves the same remaining
 stream however the input is chunked (every StreamReader primitive reads through it). -/
